@@ -458,4 +458,75 @@ theorem C18_pipe_progress (cap : Nat) (ops : List POp) :
     progress ops (prun d0 ops).1 {} {} = none :=
   pipe_progress _ ops {} {} ⟨rfl, rfl⟩ ⟨rfl, rfl⟩
 
+/-! ## The pipe's buffers are bounded -/
+
+def Pipe.Bounded (p : Pipe) : Prop := p.buf.length ≤ p.cap
+
+theorem Pipe.write_bounded (p : Pipe) (bs : Sniff.Bytes) (h : p.Bounded) :
+    (p.write bs).2.Bounded ∧ (p.write bs).2.cap = p.cap := by
+  unfold Pipe.write Pipe.Bounded at *
+  split
+  · exact ⟨h, rfl⟩
+  · by_cases ha : p.cap - p.buf.length = 0
+    · simp only [ha, if_true]; exact ⟨h, trivial⟩
+    · simp only [ha, if_false]
+      refine ⟨?_, trivial⟩
+      simp only [List.length_append, List.length_take]
+      omega
+
+theorem Pipe.read_bounded (p : Pipe) (cap : Nat) (h : p.Bounded) :
+    (p.read cap).2.Bounded ∧ (p.read cap).2.cap = p.cap := by
+  unfold Pipe.read Pipe.Bounded at *
+  split
+  · rename_i b bs hb
+    refine ⟨?_, rfl⟩
+    rw [hb] at h
+    simp only [List.length_drop]
+    omega
+  · split <;> exact ⟨h, rfl⟩
+
+theorem Pipe.shutdown_bounded (p : Pipe) (h : p.Bounded) : (p.shutdown).2.Bounded ∧ (p.shutdown).2.cap = p.cap :=
+  ⟨h, rfl⟩
+
+def Duplex.Bounded (d : Duplex) (cap : Nat) : Prop :=
+  d.ab.Bounded ∧ d.ba.Bounded ∧ d.ab.cap = cap ∧ d.ba.cap = cap
+
+theorem pstep_bounded (d : Duplex) (op : POp) (cap : Nat) (h : d.Bounded cap) : (pstep d op).2.Bounded cap := by
+  obtain ⟨h1, h2, h3, h4⟩ := h
+  cases op with
+  | write side bs =>
+    cases side
+    · have := Pipe.write_bounded d.ba bs h2
+      exact ⟨h1, this.1, h3, this.2.trans h4⟩
+    · have := Pipe.write_bounded d.ab bs h1
+      exact ⟨this.1, h2, this.2.trans h3, h4⟩
+  | read side c =>
+    cases side
+    · have := Pipe.read_bounded d.ab c h1
+      exact ⟨this.1, h2, this.2.trans h3, h4⟩
+    · have := Pipe.read_bounded d.ba c h2
+      exact ⟨h1, this.1, h3, this.2.trans h4⟩
+  | flush side => exact ⟨h1, h2, h3, h4⟩
+  | shutdown side =>
+    cases side
+    · exact ⟨h1, h2, h3, h4⟩
+    · exact ⟨h1, h2, h3, h4⟩
+
+/-- **C18 (the pipe's memory is bounded).** Whatever the two sides do - however much is written and however little
+    is read - neither direction ever buffers more than the capacity the pipe was made with: a writer that is ahead
+    is told `Pending`, never buffered without bound. -/
+theorem C18_pipe_bounded (cap : Nat) (ops : List POp) :
+    let d0 : Duplex := { ab := { cap := cap }, ba := { cap := cap } }
+    (prun d0 ops).2.Bounded cap := by
+  have key : ∀ (ops : List POp) (d : Duplex), d.Bounded cap → (prun d ops).2.Bounded cap := by
+    intro ops
+    induction ops with
+    | nil => intro d h; exact h
+    | cons op ops ih => intro d h; simp only [prun]; exact ih _ (pstep_bounded d op cap h)
+  exact key ops _ ⟨by simp [Pipe.Bounded], by simp [Pipe.Bounded], rfl, rfl⟩
+
+/-- non-vacuity: a full pipe refuses the next write and stays at its capacity -/
+example : (prun { ab := { cap := 2 }, ba := { cap := 2 } } [.write true [1, 2, 3], .write true [4]]).1 = [.count 2, .pending] := by
+  decide
+
 end Hd.Streams
